@@ -383,14 +383,14 @@ PROPERTIES["C08"] = {
 
 PROPERTIES["C17"] = {
     "level": "model_checking",
-    "level_text": "ARITHMETIC CLAUSE ONLY: bounded model checking of the lifted pool_t::map templates specialised to their inline path (size()==1): for all (elements <= 2^40, chunksize) with <= 8 chunks the operator is invoked exactly once per chunk / index, chunks tile [0,elements) without gap or overlap, worker id 0, no signed overflow. Every schedule clause (interleavings, lost wake-ups, completion barrier, exception re-throw across threads, shutdown) is NOT covered: the synchronisation lives in libstdc++/pthread primitives that no engine in this image can execute symbolically",
-    "level_note": LIFT_NOTE + "; pool object fabricated without threads; __builtin_unreachable() hint specialises map() to the inline path",
-    "technique": LIFT_TECH,
+    "level_text": "ARITHMETIC / EXACTLY-ONCE CLAUSES ONLY. SBV unit: the real ENQUEUE path of both map() templates (packaged tasks, futures, queue, completion barrier) is executed symbolically on a pool that reports K workers but starts no OS thread; the completion barrier is replaced by one that drains the queue on the calling thread with an ARBITRARY (symbolic) worker id per task: for all symbolic (elements, chunksize) within the bounds the operator runs exactly once per chunk / index, chunks tile [0,elements), worker ids are below the pool size and every enqueued task has run when map() returns - tasks run one after the other, so interleavings, lost wake-ups, races and shutdown are NOT covered. LIFT-C unit: bounded model checking of the lifted pool_t::map templates specialised to their inline path (size()==1): for all (elements <= 2^40, chunksize) with <= 8 chunks the operator is invoked exactly once per chunk / index, chunks tile [0,elements) without gap or overlap, worker id 0, no signed overflow. Every schedule clause (interleavings, lost wake-ups, completion barrier, exception re-throw across threads, shutdown) is NOT covered: the synchronisation lives in libstdc++/pthread primitives that no engine in this image can execute symbolically",
+    "level_note": LIFT_NOTE + "; pool object fabricated without threads; __builtin_unreachable() hint specialises map() to the inline path; " + SBV_NOTE,
+    "technique": LIFT_TECH + "; enqueue path by " + SBV_TECH,
     "explanation": "C17 (tiling clause): both pool_t::map templates lifted from include/nano/core/parallel.h; dispatch arithmetic decided by CBMC for symbolic element counts and chunk sizes.",
     "assumptions": ["pool size 1 (inline path)", "<= 8 chunks / <= 8 elements (unwind 10)", "elements, chunksize <= 2^40"],
     "bounds": {"chunks": "<= 8", "elements": "<= 2^40 (chunked map), <= 8 (per-index map)"},
     "outside": ["ALL schedule clauses of C17: any interleaving of workers and callers, several submitting threads, worker-id exclusivity, returns-after-all-tasks barrier, exception re-throw, destruction while idle/busy/queued - not applicable to solver-based checking of this C++ code (std::thread, std::condition_variable, std::packaged_task are opaque library calls)",
-                "the enqueue path of map() (pool size > 1)"],
+                "exception re-throw through futures (the interpreter's exceptions are not visible to the native std::current_exception used by std::packaged_task)"],
     "units": [
         {"engine": "lift", "name": "C17_map", "shim": "C17_shim.cpp", "driver": "C17_drv.c", "roots": ["k_map_chunks", "k_map_each"], "link_real_lib": True,
          "quick": [{"func": "h_map_chunks", "unwind": 10, "desc": "map(elements, chunksize, op): exactly-once tiling for all elements<=2^40 and chunk sizes with <=8 chunks"},
@@ -398,6 +398,12 @@ PROPERTIES["C17"] = {
          "thorough": [{"func": "h_map_chunks", "unwind": 10, "desc": "as quick"}, {"func": "h_map_each", "unwind": 10, "desc": "as quick"}],
          "timeout": {"quick": 400, "thorough": 1500},
          "encoded": ["nano::parallel::pool_t::map(elements, chunksize, op, raise) [inline path]", "nano::parallel::pool_t::map(elements, op, raise) [inline path]", "nano::parallel::pool_t::size"]},
+        {"engine": "sbv", "harness": "C17_enqueue", "sources": ["C17_enqueue.cpp"],
+         "quick": ["mode=chunks;K=3;maxchunks=4", "mode=chunks;K=2;maxchunks=3", "mode=each;K=3;maxchunks=4", "mode=each;K=4;maxchunks=2"],
+         "thorough": ["mode=chunks;K=%d;maxchunks=%d" % t for t in ((3, 4), (2, 3), (4, 6), (8, 5))] + ["mode=each;K=%d;maxchunks=%d" % t for t in ((3, 4), (4, 2), (2, 6))],
+         "budget": {"quick": {"deadline_s": 120, "max_paths": 5000, "query_s": 30}, "thorough": {"deadline_s": 900, "max_paths": 50000, "query_s": 60}},
+         "encoded": ["nano::parallel::pool_t::map(elements, chunksize, op, raise) [enqueue path: queue_t::enqueue_no_lock, std::packaged_task, std::future, section_t]", "nano::parallel::pool_t::map(elements, op, raise) [enqueue path]",
+                     "std::deque<task_t> / std::scoped_lock / condition_variable::notify_all (native on the real objects, single thread)", "section_t::block replaced by the sequentialised barrier (drains the queue with arbitrary worker ids, then the original future loop)"]},
     ],
 }
 
